@@ -700,6 +700,47 @@ def install(reg):
         return VBytes(t)
     SF["rest_aligned"] = s_rest_aligned
 
+    def _flen(p, X, it):
+        return PV.ival(z3.Select(PV.dmap(X[it]), key_of_const("length")))
+
+    def s_file_length(p, files, i):
+        h = p.deref(files)
+        X = p.list_seq(h)
+        return VInt(_flen(p, X, p.as_int(i)))
+    SF["file_length"] = s_file_length
+
+    def s_file_offset(p, files, i):
+        """sum of the 'length' fields of files[:i] (prefix sum; ground unfolding at i and i-1)"""
+        h = p.deref(files)
+        X = p.list_seq(h)
+        it = p.as_int(i)
+        f = p.engine.uf("file_offset", PVSEQ, I, I)
+        t = f(X, it)
+        key = ("file_offset", X.get_id(), z3.simplify(it).sexpr())
+        if key not in p.ghost:
+            p.ghost[key] = True
+            p.assume(f(X, z3.IntVal(0)) == 0)
+            for j in (it, it - 1):
+                p.assume(z3.Implies(z3.And(j >= 0, j < z3.Length(X)), z3.And(f(X, j + 1) == f(X, j) + _flen(p, X, j), _flen(p, X, j) >= 0)))
+        return VInt(t)
+    SF["file_offset"] = s_file_offset
+
+    def s_files_wellformed(p, files):
+        """every element is a dict with an int 'length' >= 0 and the keys PathNode takes (instantiated on element access)"""
+        h = p.deref(files)
+        X = p.list_seq(h)
+        keys = ["length", "path", "filename", "full"]
+
+        def fact(i, X=X):
+            d = X[i]
+            return z3.And(PV.is_PDict(d), *[z3.Select(PV.dhas(d), key_of_const(k)) for k in keys],
+                          z3.Not(z3.Select(PV.dhas(d), key_of_const("start"))), z3.Not(z3.Select(PV.dhas(d), key_of_const("stop"))),
+                          PV.is_PInt(z3.Select(PV.dmap(d), key_of_const("length"))),
+                          PV.ival(z3.Select(PV.dmap(d), key_of_const("length"))) >= 0)
+        h.tag["elem_fact"] = fact
+        return VBool(True)
+    SF["files_wellformed"] = s_files_wellformed
+
     def s_sum_lengths(p, files):
         """sum of the 'length' fields of a v1 file list; ground unfolding over the syntactic structure of the sequence term"""
         h = p.deref(files)
